@@ -128,7 +128,7 @@ CLAIMS = {
  "C16": ("Theorems: the day-number <-> civil-date conversions invert each other for EVERY integer day and EVERY valid proleptic-Gregorian "
          "date (one 400-year cycle by kernel computation, lifted to all integers through proved 146097-day / 400-year periodicity of both functions); the "
          "fields behind every accessor are those of the local time at the timestamp's own offset (valid date whose day number is the local day, fields "
-         "reassemble the local instant) with the documented origins; == and < compare instants regardless of offset; t + d - d = t and (t + d) - t = d "
+         "reassemble the local instant) with the documented origins; getDayOfYear is the calendar's ordinal of the local date - the days of the earlier months of the local year plus the day of the month, from 0 - and lies in 0..364 (365 in leap years) for every instant and offset, chrono's limit instants seen from any offset included (finding F27, repaired); == and < compare instants regardless of offset; t + d - d = t and (t + d) - t = d "
          "whenever t + d is within chrono's range, an overflow error otherwise; and timestamp(string(t)) == t, offset included, for every instant whose local "
          "year is 0000-9999 and every whole-minute offset (C16_text_roundtrip: the model's to_rfc3339 text is read back field by field - padded digits, "
          "the 0/3/6/9-digit fraction, the signed hh:mm offset - and reassembles to the same instant). The text functions model chrono's (validated by the stream). Tied to functions.rs/objects.rs/"
